@@ -1,0 +1,14 @@
+//go:build !verif
+
+// Package verifhook provides trace/gate hooks used by the external verification
+// harness. Without the `verif` build tag the hooks compile to nothing.
+package verifhook
+
+// On tells call sites whether hooks are compiled in.
+const On = false
+
+// SetSink is a no-op without the verif build tag.
+func SetSink(f func(ev string, kv ...interface{})) {}
+
+// Emit is a no-op without the verif build tag.
+func Emit(ev string, kv ...interface{}) {}
